@@ -746,9 +746,26 @@ void check_model(const ctx_t& x, const side_t& in, const side_t& tg)
         }
     }
 
+    std::vector<tensor2d_t> Ws;
+    std::vector<tensor1d_t> bs;
+    for (int k = 0; k < 4; ++k)
+    {
+        Ws.push_back(make_weights(k, T, C));
+        bs.push_back(make_bias(k, T));
+    }
+    uint64_t n_skipped = 0, n_trivial = 0, n_compared = 0;
+
+    std::vector<long double> fw(static_cast<size_t>(C)), fb(static_cast<size_t>(C)), tw(static_cast<size_t>(T)),
+        tb(static_cast<size_t>(T));
     tensor4d_t outA(P, T, 1, 1), outB(P, T, 1, 1);
+    tensor2d_t W2(T, C);
+    tensor1d_t b2(T);
     for (int mi = 0; mi < NMODES; ++mi)
     {
+        for (int j = 0; j < C; ++j)
+        {
+            affine_of(*in.stats, j, mi, fw[static_cast<size_t>(j)], fb[static_cast<size_t>(j)]);
+        }
         bool skip_in = false;
         for (int j = 0; j < C; ++j)
         {
@@ -764,6 +781,10 @@ void check_model(const ctx_t& x, const side_t& in, const side_t& tg)
             {
                 skip = skip || (tg.poisoned[static_cast<size_t>(t)] && (mt == M_STANDARD || tg.cat[static_cast<size_t>(t)]));
             }
+            for (int t = 0; t < T; ++t)
+            {
+                affine_of(*tg.stats, t, mt, tw[static_cast<size_t>(t)], tb[static_cast<size_t>(t)]);
+            }
             for (int kw = 0; kw < 4; ++kw)
             {
                 for (int kb = 0; kb < 4; ++kb)
@@ -771,19 +792,19 @@ void check_model(const ctx_t& x, const side_t& in, const side_t& tg)
                     r.evaluations += 1;
                     if (skip)
                     {
-                        r.outcome("model:skipped-after-reported-nan-deviation");
+                        ++n_skipped;
                         continue;
                     }
-                    const auto W = make_weights(kw, T, C);
-                    const auto b = make_bias(kb, T);
+                    const auto& W = Ws[static_cast<size_t>(kw)];
+                    const auto& b = bs[static_cast<size_t>(kb)];
 
                     // path A: original model on scaled inputs, predictions up-scaled
                     ::nano::linear::predict(S, W, b, outA);
                     tg.stats->upscale(MODES[mt], outA);
 
                     // path B: converted model on raw inputs
-                    auto W2 = W;
-                    auto b2 = b;
+                    W2 = W;
+                    b2 = b;
                     ::nano::upscale(*in.stats, MODES[mi], *tg.stats, MODES[mt], W2, b2);
                     ::nano::linear::predict(X, W2, b2, outB);
 
@@ -792,15 +813,14 @@ void check_model(const ctx_t& x, const side_t& in, const side_t& tg)
                     {
                         for (int t = 0; t < T && !bad; ++t)
                         {
-                            long double tw = 1, tb = 0;
-                            affine_of(*tg.stats, t, mt, tw, tb);
-                            long double terms = std::fabs(static_cast<long double>(b(t)) / tw) + std::fabs(tb / tw);
+                            const auto  twt   = tw[static_cast<size_t>(t)];
+                            long double terms = std::fabs(static_cast<long double>(b(t)) / twt) +
+                                                std::fabs(tb[static_cast<size_t>(t)] / twt);
                             for (int j = 0; j < C; ++j)
                             {
-                                long double fw = 1, fb = 0;
-                                affine_of(*in.stats, j, mi, fw, fb);
-                                terms += std::fabs(static_cast<long double>(W(t, j)) * fw * X(p, j) / tw) +
-                                         std::fabs(static_cast<long double>(W(t, j)) * fb / tw);
+                                const auto w = static_cast<long double>(W(t, j));
+                                terms += std::fabs(w * fw[static_cast<size_t>(j)] * X(p, j) / twt) +
+                                         std::fabs(w * fb[static_cast<size_t>(j)] / twt);
                             }
                             const double a = outA(p, t, 0, 0), q = outB(p, t, 0, 0);
                             if (!model_ok(a, q, terms))
@@ -825,14 +845,19 @@ void check_model(const ctx_t& x, const side_t& in, const side_t& tg)
                     if (interesting)
                     {
                         ++r.nontrivial;
+                        ++n_compared;
                     }
-                    r.outcome(!interesting    ? "model:trivial(zero-weights-or-no-scaling)"
-                              : data_probes   ? "model:compared-on-data-rows+probe"
-                                              : "model:compared-on-probe-only");
+                    else
+                    {
+                        ++n_trivial;
+                    }
                 }
             }
         }
     }
+    if (n_skipped) r.outcome("model:skipped-after-reported-nan-deviation", n_skipped);
+    if (n_trivial) r.outcome("model:trivial(zero-weights-or-no-scaling)", n_trivial);
+    if (n_compared) r.outcome(data_probes ? "model:compared-on-data-rows+probe" : "model:compared-on-probe-only", n_compared);
 }
 
 int run_case(report_t& r, const std::string& handle, const case_t& c)
